@@ -502,6 +502,16 @@ def overflow_dispatch(ck, rule_clamp, rule_wrapsel, roles):
                                            (isinstance(v, ast.Call) and dotted(v.func) == "isinstance" and len(v.args) == 2 and dotted(v.args[1]) in ("np.ndarray",))
                                 if all(_objpart(v) for v in t.values) and any(isinstance(v, ast.Compare) for v in t.values):
                                     excluded = True
+                            if isinstance(t, ast.BoolOp) and isinstance(t.op, ast.Or) and pol:
+                                # (not an ndarray) or (dtype != object): the De Morgan form of the same exclusion
+                                def _negpart(v):
+                                    if isinstance(v, ast.UnaryOp) and isinstance(v.op, ast.Not):
+                                        v = v.operand
+                                        return isinstance(v, ast.Call) and dotted(v.func) == "isinstance" and len(v.args) == 2 and dotted(v.args[1]) == "np.ndarray"
+                                    return isinstance(v, ast.Compare) and len(v.ops) == 1 and isinstance(v.ops[0], ast.NotEq) and isinstance(v.left, ast.Attribute) and v.left.attr == "dtype" \
+                                        and dotted(v.comparators[0]) in ("object", "np.object_")
+                                if all(_negpart(v) for v in t.values) and any(isinstance(v, ast.Compare) for v in t.values):
+                                    excluded = True
                         ck.check(excluded, rule_clamp, h, "arrays of Python ints (n_word >= 64) are clamped by np.clip, not by the helper vectorised without otypes",
                                  "%s reached without excluding object arrays" % cf.qualname, pf.ret_stmt,
                                  "np.vectorize infers the output type from the first element: a later element beyond 64 bits raises OverflowError")
